@@ -580,4 +580,93 @@ Proof.
     destruct Hold as [[E|[E|E]]|E]; rewrite E in *; try exact Logic.I. lia.
   - intros todo Ht. cbn in Ht. congruence.
 Qed.
+
+(* ------------------------------------------------------------------ the writes the resumed automaton takes itself *)
+(* execSeq of a resumed sequence: W seq Running, the sub-automaton starts at the first open action *)
+Lemma M_launch r b q qs rest n ok :
+  Inv sh I r -> M r -> r_ph r = RRecover ((b, qs) :: rest) -> In q qs ->
+  nth_error (seqs_of (r_s r)) q = Some SIdle -> obj_in_shape sh (OSeq b q) = true ->
+  M (commit (with_s r (with_b (r_s r) (b_with_seqs (s_b (r_s r)) (upd (b_seqs (s_b (r_s r))) q (SRun (first_open (r_pl r) b q) AIdle)))))
+            (OSeq b q) Running n ok).
+Proof.
+  intros Hi HM Hph Hq Hx Hsh. rewrite commit_eq.
+  set (s1 := with_b (r_s r) (b_with_seqs (s_b (r_s r)) (upd (b_seqs (s_b (r_s r))) q (SRun (first_open (r_pl r) b q) AIdle)))).
+  set (r' := with_mem (with_s r (put s1 (OSeq b q) Running n ok)) (iset (r_mem r) (OSeq b q) (wcell Running n ok))).
+  assert (Hmg : forall o', mget r' o' = mupd (mget r) (OSeq b q) (wcell Running n ok) o') by (intro; apply mget_write).
+  destruct (i_rec _ _ _ Hi _ Hph) as ((b0 & qs0 & rest0 & E & Ha & _) & _). injection E as <- <- <-.
+  assert (Hin : in_blocks sh r b).
+  { split; [exact Ha|]. eapply in_shape_seq_block; eauto. }
+  assert (Hqs : exists rs0, seq_of sh b q = Some rs0) by (cbn in Hsh; destruct (seq_of sh b q) as [rs0|]; [eauto|discriminate]).
+  destruct Hqs as (rs0 & Hqs).
+  assert (Hw : waiting r b q) by (unfold waiting; rewrite Hph; left; auto).
+  destruct (m_wait r HM b q rs0 Hqs Hw) as (_ & Hfo & Hpre & Hsuf).
+  assert (Hacts : forall j, acell (mget r') b q j = acell (mget r) b q j).
+  { intro j. unfold acell. rewrite Hmg. apply mupd_other. discriminate. }
+  assert (Hst : sstat (mget r') b q = Running) by (unfold sstat; rewrite Hmg, mupd_same; reflexivity).
+  assert (H1 : forall b' q' rs', seq_of sh b' q' = Some rs' -> (b', q') <> (b, q) -> msame (mget r) (mget r') b' q' (length rs')).
+  { intros b' q' rs' _ Hne. split; [rewrite Hmg; apply mupd_other; intro E; injection E as <- <-; now apply Hne|].
+    intros i _. rewrite Hmg. apply mupd_other. discriminate. }
+  assert (H2 : forall a, obj_in_shape sh (OAct a) = true -> act_ok (mget r' (OAct a))).
+  { intros a Ha0. rewrite Hmg, mupd_other by discriminate. now apply (m_act r HM). }
+  assert (H3 : scons (mget r') b q (length rs0)) by (unfold scons; rewrite Hst; apply sconsf_running).
+  assert (H4 : forall b', mst (mget r') (OBlock b') = mst (mget r) (OBlock b')).
+  { intro b'. unfold mst. rewrite Hmg, mupd_other by discriminate. reflexivity. }
+  assert (H5 : same_ctl (r_s r) (r_s r')) by (unfold same_ctl; cbn; auto).
+  assert (H6 : SRun (first_open (r_pl r) b q) AIdle <> SIdle) by discriminate.
+  assert (H7 : cur_ok r' b q (length rs0) (SRun (first_open (r_pl r) b q) AIdle)).
+  { unfold cur_ok, cur_okm. split; [exact Hst|]. split; [|split; [|split; [intros v k E; discriminate|lia]]].
+    - intros j Hj. rewrite Hacts. now apply Hpre.
+    - intros j Hj Hn. rewrite Hacts. apply Hsuf; lia. }
+  exact (M_update r r' b q rs0 SIdle _ Hi HM Hin Hqs H1 H2 H3 H4 eq_refl eq_refl H5 Hx eq_refl H6 H7).
+Qed.
+
+(* the terminal plan write *)
+Lemma M_plan_write r stt n ok rs :
+  M r -> M (commit (with_s r (with_reason (r_s r) rs)) OPlan stt n ok).
+Proof.
+  intro HM. rewrite commit_eq.
+  set (r' := with_mem (with_s r (put (with_reason (r_s r) rs) OPlan stt n ok)) (iset (r_mem r) OPlan (wcell stt n ok))).
+  assert (H1 : forall b q rs0, seq_of sh b q = Some rs0 -> msame (mget r) (mget r') b q (length rs0)).
+  { intros b q rs0 _. split; [unfold r'; rewrite mget_write; apply mupd_other; discriminate|].
+    intros i _. unfold r'. rewrite mget_write. apply mupd_other. discriminate. }
+  assert (H2 : forall a, obj_in_shape sh (OAct a) = true -> act_ok (mget r (OAct a)) -> act_ok (mget r' (OAct a))).
+  { intros a _ Hok. unfold r'. rewrite mget_write, mupd_other by discriminate. exact Hok. }
+  assert (H3 : forall b, upcoming r b -> mst (mget r') (OBlock b) = mst (mget r) (OBlock b)).
+  { intros b _. unfold mst, r'. rewrite mget_write, mupd_other by discriminate. reflexivity. }
+  exact (M_view r r' H1 H2 H3 eq_refl eq_refl eq_refl eq_refl eq_refl HM).
+Qed.
+
+(* ------------------------------------------------------------------ every handler *)
+Lemma M_rhandle d r e r' : Inv sh I r -> M r -> GR r -> rhandle d sh r e = Some r' -> M r'.
+Proof.
+  intros Hi HM Hg H. pose proof (i_live _ _ _ Hi) as Hl. unfold rhandle in H.
+  destruct e as [a|a o|o stt n ok rs|snap|fin].
+  - apply (M_plugin r (EvStart a) r' Hi HM); [discriminate|discriminate|]. destruct (r_ph r); [contradiction|exact H..].
+  - apply (M_plugin r (EvEnd a o) r' Hi HM); [discriminate|discriminate|]. destruct (r_ph r); [contradiction|exact H..].
+  - assert (H' : r_write sh r o stt n ok rs = Some r') by (destruct (r_ph r); [contradiction|exact H..]). clear H.
+    destruct (r_write_cases _ _ _ _ _ _ _ _ H') as [Hshape [(s' & Hw & ->)|[(b & q & b1 & qs & rest & -> & -> & Hph & Hq & Hu & ->)|[-> ->]]]].
+    + eapply M_hwrite; eauto.
+    + destruct (b_seq_upd_spec _ _ _ _ Hu) as (x & y & Hx & Hf & ->). destruct x; try discriminate. injection Hf as <-.
+      eapply M_launch; eauto.
+    + now apply M_plan_write.
+  - assert (H' : option_map (with_s r) (h_read sh (r_s r) snap) = Some r') by (destruct (r_ph r); [contradiction|exact H..]).
+    apply (M_plugin r (EvRead snap) r' Hi HM); [discriminate|discriminate|exact H'].
+  - assert (H' : r_release d sh r fin = Some r') by (destruct (r_ph r); [contradiction|exact H..]). clear H.
+    unfold r_release in H'. destruct (r_ph r) eqn:Ep; [contradiction|discriminate|].
+    destruct (all_flushed sh r && quiet d sh (r_I r) (mget r)); [|discriminate].
+    apply option_map_some in H' as (s' & H & ->). unfold h_release in H.
+    match type of H with (if ?c then _ else _) = _ => destruct c; [|discriminate] end. injection H as <-.
+    apply M_phase; auto.
+    + cbn. discriminate.
+    + cbn. intros [Q|[Q|Q]]; discriminate.
+    + intro Hne. exfalso. apply Hne. right. reflexivity.
+Qed.
+
+Lemma M_flush r e r' : M r -> flush sh r e = Some r' -> M r'.
+Proof.
+  intros HM H. unfold flush in H. destruct (r_ph r); [discriminate| |];
+    (destruct e; try discriminate; destruct o; try discriminate;
+     match type of H with (if ?c then _ else _) = _ => destruct c; [|discriminate] end; injection H as <-;
+     (apply M_keep; [exact HM|split; [unfold same_ctl; cbn; auto|reflexivity]])).
+Qed.
 End MemInv.
